@@ -1,6 +1,6 @@
 #!/bin/bash
 # tools/sweep.sh "<seeds>" [tier] [props...]  : runs the checks for several VERIF_SEED values from fresh processes
-cd /verif
+cd "$(dirname "$(readlink -f "$0")")/.."
 SEEDS=${1:-"0 1 2"}; TIER=${2:-quick}; shift 2 2>/dev/null
 PROPS=${@:-$(/venv/bin/python -c "import json;print(' '.join(c['property_id'] for c in json.load(open('MANIFEST.json'))['checks']))")}
 for s in $SEEDS; do for p in $PROPS; do
